@@ -859,6 +859,11 @@ class Interp:
                 fn, vals = t[1], t[2]
                 xs = [evs(x, xt, i) for x, xt in vals]
                 if len(xs) == 2:
+                    if fn in (np.maximum, np.minimum):
+                        ct = self.common_type(_unlit(xs[0][1]), _unlit(xs[1][1]))
+                        if isinstance(_unlit(xs[0][1]), types.Float) and isinstance(_unlit(xs[1][1]), types.Float):
+                            ct = xs[0][1] if _unlit(xs[0][1]).bitwidth >= _unlit(xs[1][1]).bitwidth else xs[1][1]
+                        return self.minmax(fn is np.minimum, [xs[0][0], xs[1][0]], _Sig((ct, ct), ct)), ct
                     sig = self.scalar_sig(INPLACE.get(fn, fn), xs[0][1], xs[1][1])
                     return self.binop(fn, xs[0][0], xs[1][0], sig, where), sig.return_type
                 if len(xs) == 1:
